@@ -16,6 +16,9 @@
 #ifndef FIXP
 #define FIXP 0
 #endif
+#ifndef TPL
+#define TPL 0                     /* stream template: 0 = all bytes after the fixed prefix arbitrary; 1..3 see below */
+#endif
 static struct S_class_2eFIX8_3a_3aFIXReader the_reader;
 static struct S_struct_2eFIX8_3a_3aF8MetaCntx the_ctx;
 static uint64_t sock_raw[8];
@@ -35,9 +38,19 @@ int main(void)
   uint32_t maxlen = vf_max_msg_len(), fld = vf_max_fld_len();
   uint32_t len = nondet_u32(); VF_ASSUME(len <= L);
 #ifdef LENC
-  VF_ASSUME(len == LENC);
+  len = LENC;                       /* (assigned, not assumed: keeps the stream length a constant for CBMC's constant propagation) */
 #endif
-  for (uint32_t i = 0; i < L; i++) { uint8_t b = nondet_u8(); if (i < FIXP) b = pre[i]; vf_stream[i] = b; cx_stream[i] = b; }
+  for (uint32_t i = 0; i < L; i++) {
+    uint8_t b = nondet_u8(); if (i < FIXP) b = pre[i];
+#if TPL == 1                      /* BodyLength field = one arbitrary byte: "8=FIX.4.2|9=?|..." */
+    if (i == 13) b = 1;
+#elif TPL == 2                    /* BodyLength field = ten arbitrary bytes */
+    if (i == 22) b = 1;
+#elif TPL == 3                    /* 13 arbitrary bytes, then a run of the digit '1' closed by SOH at the end of the stream */
+    if (i >= 13) b = (i == L - 1) ? 1 : '1';
+#endif
+    vf_stream[i] = b; cx_stream[i] = b;
+  }
   vf_stream_len = len; cx_stream_len = len;
   /* ---- reference parse of the stream ---- */
   int pre_ok = len >= 12; for (uint32_t i = 0; i < 12; i++) if (i < len && vf_stream[i] != pre[i]) pre_ok = 0;
